@@ -1053,6 +1053,15 @@ package argmapper
 //@   requires vs != nil
 //@   pure
 //@   ensures [by-type] result == vs.typedValues[t]
+// Values: the set reports its values back in order, as copies (C15)
+//@ func (*ValueSet).Values
+//@   requires vs != nil && forall(j, int, imp(0 <= j && j < len(vs.values), vs.values[j] != nil))
+//@   ensures [same-length] len(result) == len(vs.values)
+//@   ensures [same-labels-in-order] forall(j, int, imp(0 <= j && j < len(vs.values), result[j].Name == vs.values[j].Name && result[j].Type == vs.values[j].Type && result[j].Subtype == vs.values[j].Subtype && result[j].Value == vs.values[j].Value))
+//@   ensures [fresh-copy] fresh(result)
+//@   modifies nothing
+//@   loop 1 invariant forall(j, int, imp(0 <= j && j < len(vs.values), vs.values[j] != nil))
+//@   loop 1 invariant fresh(result) && len(result) == len(vs.values) && forall(j, int, imp(0 <= j && j < idx1, result[j].Name == vs.values[j].Name && result[j].Type == vs.values[j].Type && result[j].Subtype == vs.values[j].Subtype && result[j].Value == vs.values[j].Value))
 //@ func (*ValueSet).TypedSubtype
 //@   requires vs != nil && forall(j, int, imp(0 <= j && j < len(vs.values), vs.values[j] != nil))
 //@   ensures [exact-type-and-subtype] imp(result != nil, result.Type == t && result.Subtype == st && exists(j, int, 0 <= j && j < len(vs.values) && vs.values[j] == result))
